@@ -54,13 +54,21 @@ class _Alpha(ast.NodeVisitor):
 
     def _enter(self, fn):
         a = fn.args
-        params = {x.arg for x in a.posonlyargs + a.args + a.kwonlyargs}
-        if a.vararg:
-            params.add(a.vararg.arg)
-        if a.kwarg:
-            params.add(a.kwarg.arg)
-        self.scopes.append((self.counter, _scope_locals(fn), params))
+        allp = a.posonlyargs + a.args + a.kwonlyargs + ([a.vararg] if a.vararg else []) + ([a.kwarg] if a.kwarg else [])
+        # parameters are renamable too (handlers are called positionally by the visitor machinery); `self`/`cls` are not
+        fixed = {x.arg for x in allp[:1] if x.arg in ("self", "cls")}
+        sid = self.counter
         self.counter += 1
+        locs = _scope_locals(fn) | {x.arg for x in allp if x.arg not in fixed}
+        self.scopes.append((sid, locs, fixed))
+        for x in allp:
+            if x.arg in fixed:
+                continue
+            key = (sid, x.arg)
+            if key not in self.order:
+                self.order.append(key)
+            if self.rename is not None and key in self.rename:
+                x.arg = self.rename[key]
 
     def visit_FunctionDef(self, node):
         for d in node.args.defaults + [k for k in node.args.kw_defaults if k is not None]:
@@ -138,4 +146,6 @@ def undo_pure_renames(qual: str, fn: ast.AST, ref: Dict[str, Dict]) -> bool:
     for n in ast.walk(fn):
         if isinstance(n, ast.Name) and n.id.startswith("\0"):
             n.id = n.id[1:]
+        elif isinstance(n, ast.arg) and n.arg.startswith("\0"):
+            n.arg = n.arg[1:]
     return True
